@@ -394,12 +394,13 @@ func (c *P1Harness) Define(api frontend.API) error {
 	return nil
 }
 
-// Repeated calls in one circuit: Poseidon2, Poseidon1, Poseidon2 again (operands swapped), then a depth-2
-// VerifyProof (2 more Poseidon2 calls through ProofRound). Each result is exposed via an equality with an input.
+// Repeated calls in one circuit: Poseidon2, Poseidon1, Poseidon2 on a previous result, a depth-2 VerifyProof (2 more Poseidon2
+// calls through ProofRound), and a computed operand (2*A, a linear expression the builder may mutate in place) hashed three times.
+// Each result is exposed via an equality with an input.
 type PMultiHarness struct {
-	A, B, C         frontend.Variable
-	D0, D1          frontend.Variable
-	O1, O2, O3, O4 frontend.Variable
+	A, B, C, S                 frontend.Variable
+	D0, D1                     frontend.Variable
+	O1, O2, O3, O4, O5, O6, O7 frontend.Variable
 }
 
 func (c *PMultiHarness) Define(api frontend.API) error {
@@ -411,6 +412,13 @@ func (c *PMultiHarness) Define(api frontend.API) error {
 	api.AssertIsEqual(h3, c.O3)
 	h4 := abstractor.Call(api, prover.VerifyProof{Proof: []frontend.Variable{c.A, c.B, c.C}, Path: []frontend.Variable{c.D0, c.D1}})
 	api.AssertIsEqual(h4, c.O4)
+	s := api.Add(c.A, c.A)
+	h5 := abstractor.Call(api, poseidon.Poseidon2{In1: s, In2: c.B})
+	api.AssertIsEqual(h5, c.O5)
+	h6 := abstractor.Call(api, poseidon.Poseidon2{In1: s, In2: c.B})
+	api.AssertIsEqual(h6, c.O6)
+	h7 := abstractor.Call(api, poseidon.Poseidon1{In: s})
+	api.AssertIsEqual(h7, c.O7)
 	return nil
 }
 
